@@ -510,7 +510,13 @@ func runC07(rc *RunCtx) {
 						if !(r2.OK() && RespState(r2) == "PAID") {
 							vio("A", "internal_locked", "internal settlement interrupted: quote %s, inputs %s, neither spendable (%v) nor meltable (%v)", st, pst, r, r2)
 						}
+					} else {
+						m.Spent["A"] = append(m.Spent["A"], ins...)
 					}
+					// the payee tries to mint whatever happened: the Book decides whether a settlement that
+					// kept its inputs covers it (C03.*), the audit whether value appeared (C02.*)
+					m.User.Mint("A", mq, outs, "")
+					rc.S.Probe("c07_internal_payee_mints_after_interruption")
 				}
 				break
 			}
